@@ -3,7 +3,7 @@
 From Coq Require Import List NArith Bool.
 Import ListNotations.
 From TV Require Import C18.Model C14.Utf8 C14.Model C14.Peer C14.ProofsCodec C14.ProofsRecv
-  C14.ProofsReasm C14.ProofsMain C15.Model C15.Proofs C15.ProofsReach.
+  C14.ProofsReasm C14.ProofsMain C15.Model C15.Proofs C15.ProofsReach C15.ProofsUnknown.
 Local Open Scope N_scope.
 
 (* One step.  In any live receiver state (not terminated, stream open; the two state
@@ -88,3 +88,24 @@ Theorem C15_bytes_are_frames :
     recv_wire ist z_inflate cfg eof st (encode_all fs) = run_frames ist z_inflate cfg eof st fs.
 Proof. exact recv_wire_refines. Qed.
 Print Assumptions C15_bytes_are_frames.
+
+(* The delayed case.  A data frame with an unknown opcode 3-7 and FIN=0 (no message open) is
+   not always refused at once: it may open a fragmented message that is refused when it ends
+   or when the next data frame starts.  Whatever the peer sends after it, in any live state,
+   no message is ever delivered again: the outcome (Done, Waiting or an escaped exception)
+   carries exactly the messages delivered before that frame. *)
+Theorem C15_unknown_data_opcode_never_delivers :
+  forall ist z_inflate cfg eof st v post,
+    r_cterm st = false -> r_frag st = None ->
+    3 <= f_op v -> f_op v <= 7 -> f_fin v = false ->
+    outcome_msgs ist (run_frames ist z_inflate cfg eof st (v :: post)) = Some (msgs ist st).
+Proof. exact unknown_data_opcode_never_delivers. Qed.
+Print Assumptions C15_unknown_data_opcode_never_delivers.
+
+(* more generally: while the opcode under reassembly is a data opcode other than text/binary,
+   no frame sequence delivers anything *)
+Theorem C15_poisoned_reassembly_never_delivers :
+  forall ist z_inflate cfg eof fs st,
+    poisoned ist st -> outcome_msgs ist (run_frames ist z_inflate cfg eof st fs) = Some (msgs ist st).
+Proof. exact poisoned_never_delivers. Qed.
+Print Assumptions C15_poisoned_reassembly_never_delivers.
